@@ -20,10 +20,17 @@ from harness.lib.ctx import guarded
 REQ = "From HV Require Import Common.Generic Common.Cmp C01.Model C05.Model.\nOpen Scope Q_scope.\n"
 TWO_PI = 2 * math.pi
 
-# relative tolerances (relative to the largest field / hologram value of the compared set).
-# measured on the unchanged tree (seeds 1..6, thorough): see the final report / evidence notes.
-TOL = {"mie": 1e-9, "mie_far": 1e-9, "mie_rad": 1e-9, "layered": 1e-9, "mie_sup": 1e-9, "mielens": 1e-9,
-       "amielens": 1e-9, "multi": 1e-5, "tmatrix": 1e-5, "lens": 1e-6, "lens_grid": 1e-9, "lens_uneq": 1e-6}
+# relative tolerances (relative to the largest field / hologram value of the compared set), set from the level measured
+# on the unchanged tree (3 seeds x 2140 thorough cases; worst seen in brackets):
+#   near-field Mie, layered, superposition [1.1e-12: phases exp(i kr), kr up to ~250]            -> 1e-8
+#   far-field Mie, MieLens, AberratedMieLens [6e-14], Lens 60x60 below aliasing [1.4e-14]         -> 1e-9 / 1e-8
+#   Lens on exact grid symmetries [2.5e-14]                                                       -> 1e-9
+#   Multisphere [2.5e-5, rare; iterative SCSMFO solve with eps=1e-6, qeps1=1e-5: a mirrored / rotated cluster is a
+#     different linear system stopped at a different residual; C09 measures 8e-4 between permutations]   -> 5e-4
+#   T-matrix [1.3e-6: ampld nudges every angle by EPS=1e-7 towards pi/2 resp. pi, deterministically]   -> 5e-5
+# a sign / index / argument mutation changes results by >= 1e-2.
+TOL = {"mie": 1e-8, "mie_far": 1e-9, "mie_rad": 1e-9, "layered": 1e-8, "mie_sup": 1e-8, "mielens": 1e-9,
+       "amielens": 1e-9, "multi": 5e-4, "tmatrix": 5e-5, "lens": 1e-8, "lens_grid": 1e-9, "lens_uneq": 1e-8}
 # Lens with quad_npts_theta != quad_npts_phi is a separate input class with its own finding key
 # (Lens._calc_scattering_matrix reshapes meshgrid output with the two sizes swapped): see the final report.
 UNEQ_KEY = "lens:quad_npts_unequal"
@@ -326,7 +333,9 @@ def gen_case(rng, tkind, opkind):
     if tkind == "lens_uneq":
         theory.update(lens_angle=u(rng, 0.3, 1.0), ntheta=rng.choice([20, 30, 45]), nphi=60)
     if tkind == "lens_grid":
-        n = rng.choice([7, 12, 16])
+        # few nodes, large k*rho: far inside the aliasing regime, where only the EXACT symmetries of the node set
+        # {2 pi j / n} survive (theorem lens_grid_rot): rotations by 2 pi m / n, y -> -y, and x -> -x iff n is even
+        n = rng.choice([12, 16]) if opkind == "mir_x" else rng.choice([7, 12, 16])
         theory.update(lens_angle=u(rng, 0.3, 1.0), ntheta=n, nphi=n)
     if tkind in ("mie_sup", "multi"):
         scat = gen_cluster(rng, z, mi, nmax=3 if tkind == "multi" else 4)
@@ -474,13 +483,13 @@ def judge(ctx, spec, res):
 def stage_explore(ctx):
     rng = ctx.subrng("explore")
     ctx.maxerr = {}
-    reps = ctx.n(3, 40)
+    reps = ctx.n(8, 40)
     specs = []
     for _ in range(reps):
         for tk in THEORY_KINDS:
             for opk in ("shift", "rot", "mir_y", "mir_x"):
                 specs.append(gen_case(rng, tk, opk))
-    for _ in range(ctx.n(2, 20)):
+    for _ in range(ctx.n(4, 20)):
         for tk in ("mie", "mie_far", "mielens", "lens", "mie_sup", "multi"):
             specs.append(gen_grid_case(rng, tk, "gridshift"))
         for tk in ("mie", "mie_far", "mielens", "lens", "lens_uneq"):
@@ -688,7 +697,7 @@ def lens_corr_exprs(spec):
                 nodes.append("(%s, (%s, %s), (%s, %s, %s, %s))" % (
                     clit(P), qlit(math.cos(phis[jp] - gam)), qlit(math.sin(phis[jp] - gam)),
                     clit(Sv[it][1][1]), clit(Sv[it][0][0]), clit(Sv[it][0][1]), clit(Sv[it][1][0])))
-        e = "cvclose %s %s (cv_mul QO %s (lens_assemble QO %s %s %s %s)) %s" % (
+        e = "cvclose %s %s (cv_mul QOr %s (lens_assemble QOr %s %s %s %s)) %s" % (
             qlit(CORR_TOL), qlit(scale), clit(ph), listlit(nodes), qlit(math.cos(gam)), qlit(math.sin(gam)), clit(K),
             cvlit(E[i]))
         out.append((e, dict(kind="corr-lens", spec=spec, point=i, impl=[[z.real, z.imag] for z in E[i]])))
